@@ -156,9 +156,9 @@ DeclineOut(S, m, a) ==
     IF mine = {} THEN {Outc(S, AnyR)}
     ELSE LET l  == CHOOSE x \in mine : TRUE
              S1 == S \ {l}
-             \* a name derived from the declined address describes that
+             \* the name derived from the declined address describes that
              \* address and does not move to another one
-             keep == {""} \cup ({l.host} \ {GenName(a), AltName(a)})
+             keep == {""} \cup ({l.host} \ {GenName(a)})
          IN  {Outc(S1, AnyR)}
              \cup {Outc(T, AnyR) : T \in Allocs(S1, m, TRUE, keep, TRUE)}
              \cup {Outc(T, AnyR) : T \in Allocs(S1, m, FALSE, keep, TRUE)}
